@@ -12,8 +12,22 @@ Open Scope string_scope.
      normalize_original_data() sets together with the in-place normalisation
      (the only change of original_data); a second normalisation is idempotent
      up to rounding.  The model knows counters only, so it cannot see this. *)
+(* - "<attribute> (assigned)" are implicit mutators: configuration that the
+     constructor stores under a public name straight from its arguments and
+     that a cached method reads may be assigned by the user (RecurrencePlot
+     keys its line distributions on threshold / metric / missing_values /
+     sparse_rqa for exactly that reason, Network on directed).  Three
+     classes' constructor arguments are not protected that way and are
+     accepted here: they have no setter, the property's list of state changes
+     does not name them, and re-assigning them is not a documented use
+     (ClimateData.time_cycle / anomalies, Surrogates.original_data; the
+     stale values are listed under "other observations" in DESIGN.md). *)
 Definition known_inadequate : list (string * string * string) :=
-  [("Surrogates", "original_data_fft", "normalize_original_data");
+  [("ClimateData", "anomaly", "anomalies (assigned)");
+   ("ClimateData", "anomaly", "time_cycle (assigned)");
+   ("ClimateData", "phase_mean", "time_cycle (assigned)");
+   ("Surrogates", "original_data_fft", "original_data (assigned)");
+   ("Surrogates", "original_data_fft", "normalize_original_data");
    ("Surrogates", "original_data_fft", "original_distribution");
    ("Surrogates", "original_data_fft", "test_threshold_significance")].
 
